@@ -96,7 +96,7 @@ def _main(args) -> int:
     print("check %s tier=%s VERIF_SEED=%d runs=%d jobs=%d tree=%s" % (prop, args.tier, base, n, args.jobs, runner.tree_hash()))
     sys.stdout.flush()
     t0 = time.monotonic()
-    ctx = impl.new_context(prop)
+    ctx = impl.new_context(prop, args.tier)
     stop = {"flag": False}
 
     def one(seed):
@@ -115,7 +115,7 @@ def _main(args) -> int:
     selftest = {"determinism_seeds": 0, "determinism_ok": True}
     if not args.no_selftest and done and not stop["flag"]:
         k = min(SELFTEST[args.tier], len(done))
-        again = runner.pmap(lambda s: impl.run_seed(prop, s, impl.new_context(prop)), seeds[:k], max(1, args.jobs // 2))
+        again = runner.pmap(lambda s: impl.run_seed(prop, s, impl.new_context(prop, args.tier)), seeds[:k], max(1, args.jobs // 2))
         for a, b in zip(done[:k], again):
             da = [e["digest"] for e in a["execs"]]
             db = [e["digest"] for e in b["execs"]]
